@@ -175,7 +175,11 @@ func c12R4(c *Ctx, r *Report, rule string) {
 	// dialPeers switches on that field
 	if dp := c.Fn("modules/l4proxy.(*Handler).dialPeers"); dp != nil && field != "" {
 		ok1, ok2 := false, false
-		for _, b := range dp.Blocks {
+		var scan []*ssa.BasicBlock // dialPeers and the helpers it calls synchronously
+		for g := range c.reachSync(dp) {
+			scan = append(scan, g.Blocks...)
+		}
+		for _, b := range scan {
 			for _, in := range b.Instrs {
 				al, ok := in.(*ssa.Alloc)
 				if !ok {
